@@ -100,7 +100,7 @@ pub fn simk_case(u: &mut Unstructured, forced: Option<c::Focus>) -> Result<(c::F
             }
         };
         let mut time = if focus == c::Focus::C04 {
-            Some(pick(u, &[0u64, 500, 999_000, 5_000_000, 100_000_000, 10_000_000_000, (1u64 << 31) * 1_000_000 + 7, 30 * 86400 * 1_000_000_000])?)
+            Some(pick(u, &[0u64, 500, 999_000, 5_000_000, 100_000_000, 10_000_000_000, (1u64 << 31) * 1_000_000 + 7, 30 * 86400 * 1_000_000_000, u64::MAX])?)
         } else {
             None
         };
